@@ -39,6 +39,9 @@ type request struct {
 	Name   string `json:"name"`   // file name handed to location.NewFile
 	Data   []byte `json:"data"`   // the document
 	Strict bool   `json:"strict"` // false: IgnoreNotImplemented=["all"] (as the suite does for the big examples)
+	// Slow (parent side only): the input belongs to the family known to need
+	// tens of CPU seconds (1000-deep array/object nesting); budgets are 10x.
+	Slow bool `json:"-"`
 }
 
 // locInfo is one piece of location information found in the returned error.
@@ -445,12 +448,17 @@ func (p *pool) closeAll() {
 }
 
 // budgets, in CPU seconds of the worker (the property bounds time; typical is
-// < 0.1 s, 1000-deep nesting takes tens of seconds, hence generous values).
-func firstBudget(size int) time.Duration {
-	return 60*time.Second + time.Duration(size/1024)*250*time.Millisecond
+// < 0.1 s, the largest corpus files a few seconds; only the separately labelled
+// deep family needs tens of seconds).
+func firstBudget(req request) time.Duration {
+	b := 30*time.Second + time.Duration(len(req.Data)/1024)*250*time.Millisecond
+	if req.Slow {
+		b *= 10
+	}
+	return b
 }
 
-func confirmBudget(size int) time.Duration { return 5 * firstBudget(size) }
+func confirmBudget(req request) time.Duration { return 6 * firstBudget(req) }
 
 // execute runs one document in an isolated worker and returns the verdict.
 // A death or a watchdog hit is re-run alone in a fresh worker (with the larger
@@ -461,7 +469,7 @@ func execute(req request) (v verdict, unconfirmed string) {
 	if err != nil {
 		panic(fmt.Sprintf("c11 harness: cannot start worker: %v", err))
 	}
-	v, alive := w.run(req, firstBudget(len(req.Data)))
+	v, alive := w.run(req, firstBudget(req))
 	if alive {
 		workers.put(w)
 		return v, ""
@@ -471,7 +479,7 @@ func execute(req request) (v verdict, unconfirmed string) {
 	if err != nil {
 		panic(fmt.Sprintf("c11 harness: cannot start worker: %v", err))
 	}
-	v2, alive2 := w2.run(req, confirmBudget(len(req.Data)))
+	v2, alive2 := w2.run(req, confirmBudget(req))
 	if alive2 {
 		workers.put(w2)
 		return v2, fmt.Sprintf("first run: %s (exit %d, %d ms); re-run alone: %s in %d ms", first.Class, first.ExitCode, first.MS, v2.Class, v2.MS)
